@@ -321,6 +321,12 @@ def robustness_corpus(ctx, rng):
         out.append(('lp', rc.make_lp(fragment=i, pit_token=b'\x01\x02')))
         out.append(('lp', rc.make_lp(fragment=bytes(make_data(nm, MetaInfo(), b'w', sd)), headers=[(0x340, b'\x01')])))
         out.append(('lp', rc.make_lp(fragment=bytes(make_data(nm, MetaInfo(), b'w', sd)), nack_reason=100)))
+    # well-formed packets whose names are awkward to PRINT (typed components that hold no number: 2000 / 3 / 0 octets) - whether and how the
+    # application logs is no input of reception
+    for nm in ([rc.comp(8, b'h'), rc.comp(50, b'\x01' * 2000)], [rc.comp(8, b'p'), rc.comp(54, b'\x01\x02\x03')], [rc.comp(8, b'h'), rc.comp(58, b'')]):
+        out.append(('data', bytes(make_data(nm, MetaInfo(), b'payload', sd))))
+        out.append(('interest', bytes(make_interest(nm, InterestParam(nonce=5, lifetime=500)))))
+        out.append(('lp', rc.make_lp(fragment=bytes(make_interest(nm, InterestParam(nonce=8))), nack_reason=150)))
     for frag in (b'\xfd', b'\xfd\x00', b'\xfe', b'\xfe\x00\x00\x00', b'\xff', b'\xff' + bytes(7), b'\x05\xfd', b'\x06\xfe\x00', b'\xfd\x00\x05',
                  b'\x05\x03\x07', b'\x06'):
         # link-layer packets whose fragment is too short to carry a complete Type / Length number
